@@ -70,6 +70,9 @@ class World:
                 ctx.lam_for[id(p.stack)] = lam
                 ctx._keep = getattr(ctx, '_keep', []) + [p.stack]
                 p._verif_lam = lam
+            elif k == 'alphadeg':
+                from ..panelsym import AngleTok
+                p.alphadeg = AngleTok('deg', v)          # another cone angle: its own sin/cos atoms
             else:
                 setattr(p, k, ctx.V(v) if isinstance(v, str) else v)
 
@@ -157,7 +160,7 @@ def ops_panel(w, p):
 
 
 REDEF = {'none': {}, 'mu': {'mu': 'mu2'}, 'a': {'a': 'a2'}, 'Nxx': {'Nxx': 'Nxx2'}, 'lam': {'lam': 'F2'}, 'offset': {'offset': 'd2'},
-         'flag': {'w1rx': 'w1rx2'}}
+         'flag': {'w1rx': 'w1rx2'}, 'b': {'b': 'b2'}, 'r': {'r': 'r2'}, 'Nxy': {'Nxy': 'Nxy2', 'Nyy': 'Nyy2'}, 'order': {'n': 2}, 'alpha': {'alphadeg': 'alpha2'}}
 
 
 def build(cfg, values=None):
@@ -175,6 +178,8 @@ def build(cfg, values=None):
     obs = []
     base = {'Nxx': 'Nxx', 'Nyy': 'Nyy', 'Nxy': 'Nxy', 'offset': 'd'}
     with ctx.shadow():
+        if model == 'kpanel':
+            ctx.override_sections(1)
         p_loaded = p = w.panel(model, m, n, base)
         p.out_num_cores = 1
         # history: first ; redefinition ; last
@@ -186,13 +191,15 @@ def build(cfg, values=None):
                 obs.append(('requested-first-on-a-fresh-object[%s]' % first, Sym.lift(1), Sym.lift(0)))
         if redef != 'none':
             w.apply_defn(p, REDEF[redef])
+            if redef == 'order':
+                t1, g1 = ops_panel(w, p)       # the caller supplies vectors of the new size
         r_hist = flat(t1[last](), last)
         for nm, (arr, copy) in g1.items():
             for k in range(len(arr)):
                 if arr[k] is not copy[k]:
                     obs.append(('caller-array-%s-unchanged[%d]' % (nm, k), Sym.lift(1), Sym.lift(0)))
         # twin: fresh object carrying the final definition, last op requested first
-        q = w.panel(model, m, n, base)
+        q = w.panel(model, m, REDEF[redef].get('n', n), base)
         q.out_num_cores = 1
         if redef != 'none':
             w.apply_defn(q, REDEF[redef])
@@ -272,10 +279,19 @@ def configs(tier, seed):
             firsts = mops if not quick else [o for o in mops if (zlib.crc32(('%s;%s;%d' % (o, last, seed)).encode()) % 3 == 0) or o in ('calc_k0', last)]
             for first in firsts:
                 out.append({'model': model, 'm': 2, 'n': 1, 'first': first, 'redef': 'none', 'last': last, 'group': 'pair:%s' % model})
-            for redef in ('mu', 'a', 'Nxx', 'lam', 'offset', 'flag'):
+            for redef in ('mu', 'a', 'Nxx', 'lam', 'offset', 'flag', 'b', 'Nxy', 'order') + (('r',) if model == 'cpanel' else ()):
                 fs = [last, 'calc_k0'] if quick else [last, 'calc_k0', 'freq', 'lb', 'calc_kM']
+                if quick and redef in ('b', 'Nxy', 'order', 'r'):
+                    fs = ['calc_k0']
                 for first in sorted(set(fs) & set(mops)):
                     out.append({'model': model, 'm': 2, 'n': 1, 'first': first, 'redef': redef, 'last': last, 'group': 'redefinition-%s:%s' % (redef, model)})
+    # conical panel: the matrices follow the current cone angle / radius, whichever matrix is asked for first
+    kops = ['get_size', 'calc_k0', 'calc_kG0', 'calc_kM']
+    for last in kops:
+        out.append({'model': 'kpanel', 'm': 2, 'n': 1, 'first': '-', 'redef': 'none', 'last': last, 'group': 'fresh-first:kpanel'})
+        for redef in ('alpha', 'r', 'a'):
+            for first in sorted({last, 'calc_k0'} if quick else set(kops)):
+                out.append({'model': 'kpanel', 'm': 2, 'n': 1, 'first': first, 'redef': redef, 'last': last, 'group': 'redefinition-%s:kpanel' % redef, 'timeout_ms': 180000})
     for c in out:
         c['variant'] = '%s;%s;%s' % (c['first'], c['redef'], c['last'])
     for model in ('clpt_donnell_bc1', 'fsdt_donnell_bc1', 'fsdt_donnell_bc4'):
